@@ -343,8 +343,23 @@ def r7_ref_patterns(text):
             continue
         # must really be a match arm: enclosing block is headed by `match`
         ob = _enclosing_open(m, ps)
-        hk = _block_header_kw(m, ob) if ob is not None else None
-        if hk is None or hk[0] != "match":
+        if ob is None:
+            continue
+        # the block must be the body of a `match`: `... match SCRUTINEE {` (scrutinee without braces)
+        q = ob - 1
+        is_match = False
+        while q >= 0:
+            ch = m[q]
+            if ch in ")]":
+                q = match_open(m, q) - 1
+                continue
+            if ch in ";{}":
+                break
+            if m.startswith("match", q) and not (m[q + 5].isalnum() or m[q + 5] == "_") and (q == 0 or not (m[q - 1].isalnum() or m[q - 1] == "_")):
+                is_match = True
+                break
+            q -= 1
+        if not is_match:
             continue
         eds, names = [], []
         for r in refs:
